@@ -1,6 +1,6 @@
 (** * C06 -- The WebAssembly backend agrees with the VM or refuses. *)
 From Coq Require Import String ZArith List Bool.
-From NSL Require Import Spec.Wasm Proofs.WasmProofs.
+From NSL Require Import Model.PyNum Model.IR Model.VM Spec.Wasm Model.WasmGen Proofs.WasmProofs Proofs.WasmGenProofs Proofs.WasmSimProofs.
 From NSLDyn Require Gen_Shapes.
 Import ListNotations.
 Local Open Scope Z_scope.
@@ -20,6 +20,17 @@ Proof. exact wrap32_mul. Qed.
 Theorem C06_ring_expressions_agree : forall e env, wrap32 (eval_z env e) = eval_w env e.
 Proof. exact ring_expr_agree. Qed.
 
+(** Compiler correctness for the integer ring fragment, on the generator model (which is compared for equality with
+    the decoded binary of the real compiler on every run): for every IR function made of argument loads, + - * on
+    ints and a return -- any length, any number of parameters, any constants -- and every integer argument vector,
+    if the VM model returns v then v is an integer r and the emitted body, executed by the WebAssembly semantics on the
+    wrapped arguments with all other locals zero, returns r reduced to 32 bits. *)
+Theorem C06_ring_functions_agree : forall F ft ls body zs fuel P st v st',
+  gen_function F = Some (ft, ls, body) -> ring_fn F = true -> length zs = argc F ->
+  run fuel P F 0 {| regs := init_regs F; vars := []; fargs := map VInt zs |} st = Done v st' ->
+  exists r, v = VInt r /\ exec body (map (fun z => WI32 (wrap32 z)) zs ++ map zero_of ls) [] 1 = XVal [WI32 (wrap32 r)].
+Proof. exact ring_function_agrees. Qed.
+
 (** Full statement (NOT proved): for every program in the backend's subset and every argument vector, the exported
     function run by a conforming engine returns the reference result (ints exactly, floats to single precision) or
     the compiler refuses.  Division, comparisons and f32 arithmetic are covered by the correspondence: V8, the Coq
@@ -30,5 +41,6 @@ Definition C06_full_statement : Prop := forall (emitted : bytes) (name : list Z)
 Theorem C06_generator_shape : Gen_Shapes.shape_wasm_generator_checked = true.
 Proof. reflexivity. Qed.
 
+Eval compute in "ASSUMPTIONS C06_ring_functions_agree"%string. Print Assumptions C06_ring_functions_agree.
 Eval compute in "ASSUMPTIONS C06_ring_expressions_agree"%string. Print Assumptions C06_ring_expressions_agree.
 Eval compute in "END"%string.
